@@ -161,11 +161,12 @@ PROPS = {
     },
     'C12': {
         'units': ['core_kernel', 'into_float'],
+        'kani': ['kani/cast.py'],
         'title': 'Decimal to f64/f32 conversion is correctly rounded',
         'design_ref': 'DESIGN.md section 7 (C12)',
         'assumptions': [
             'the result is specified as a BIT PATTERN: from_bits is called with sign | rne_bits(|c|, 10^f); rne_bits is proved (spec/float_rne.rs) to be the nearest normal number, ties to even; IEEE-754 layout of f64::from_bits / f32::from_bits is assumed',
-            'Decimals with n_frac_digits == 0 or coeff == 0 go through the compiler int->float cast (`coeff as f64`): its correct rounding (and 0 -> +0.0) is trusted rustc/LLVM behaviour, NOT verified',
+            'Decimals with n_frac_digits == 0 or coeff == 0 go through the compiler int->float cast (`coeff as f64`), which Verus cannot read: that branch of the REAL From impls is proved by Kani/CBMC (kani/cast.py: four loop-free harnesses over every coefficient in Decimal::MIN..=MAX at scale 0 and every zero with 0..=18 fractional digits, bit pattern == integer-only nearest-even oracle, zero -> +0.0; complete, not bounded). Assumed there: CBMC\'s bit-precise IEEE-754 model of `i128 as f64/f32` (round to nearest even, as the Rust reference prescribes) is what rustc/LLVM emit; the oracle rne_int_bits is an executable transcription of the den == 1 instance of spec float_bits_of (checked on hand-computed patterns)',
             'u128::leading_zeros, u128::pow, f64::MANTISSA_DIGITS/MAX_EXP, size_of::<u64/u32> by assume_specification / table (std documentation)',
             'From<Decimal> for f64/f32 are verified as mechanically derived free functions (rule R54), because Verus does not allow a precondition (valid(d)) on impls of From',
         ],
